@@ -76,7 +76,7 @@ Fixpoint max_depth (d : N) (evs : list event) : N :=
 Lemma max_depth_ge d evs : d <= max_depth d evs.
 Proof.
   revert d; induction evs as [|e r IH]; intros d; cbn [max_depth]; [lia|].
-  destruct e as [n|[| |n]]; try apply IH; lia.
+  destruct e as [n|[| |n|n]]; try apply IH; lia.
 Qed.
 
 (* the depth wrapper accepts a trace iff its deepest nesting stays within the limit *)
@@ -85,7 +85,7 @@ Theorem depth_feed_iff L evs : forall d, d <= L ->
 Proof.
   induction evs as [|e r IH]; intros d Hd; cbn [feed max_depth].
   - cbn [snd]. symmetry. now apply N.leb_le.
-  - destruct e as [n|[| |n]]; cbn [mstep depthmon].
+  - destruct e as [n|[| |n|n]]; cbn [mstep depthmon].
     + now apply IH.
     + destruct (N.leb_spec (d + 1) L) as [H|H].
       * rewrite IH by exact H. pose proof (max_depth_ge (d + 1) r).
@@ -93,6 +93,7 @@ Proof.
       * cbn [snd]. symmetry. apply N.leb_gt. lia.
     + rewrite IH by lia. pose proof (max_depth_ge (d - 1) r).
       destruct (N.leb_spec (max_depth (d - 1) r) L); destruct (N.leb_spec (N.max d (max_depth (d - 1) r)) L); try reflexivity; lia.
+    + now apply IH.
     + now apply IH.
 Qed.
 
@@ -142,7 +143,7 @@ Fixpoint has_alloc (evs : list event) : bool :=
 Lemma used_after_ge u evs : u <= usize_max -> u <= used_after u evs.
 Proof.
   revert u; induction evs as [|e r IH]; intros u Hu; cbn [used_after]; [lia|].
-  destruct e as [n|[| |n]]; try (apply IH; exact Hu).
+  destruct e as [n|[| |n|n]]; try (apply IH; exact Hu).
   unfold sat_add. etransitivity; [|apply IH]; lia.
 Qed.
 
@@ -152,7 +153,7 @@ Theorem mem_feed_iff L evs : forall u, u <= usize_max ->
   snd (feed (memmon L) u evs) = negb (has_alloc evs) || (used_after u evs <? L).
 Proof.
   induction evs as [|e r IH]; intros u Hu; cbn [feed has_alloc used_after]; [reflexivity|].
-  destruct e as [n|[| |n]]; cbn [mstep memmon]; try (now apply IH).
+  destruct e as [n|[| |n|n]]; cbn [mstep memmon]; try (now apply IH).
   cbn [negb orb].
   set (u' := sat_add usize_max u n). assert (Hu': u' <= usize_max) by (unfold u', sat_add; lia).
   pose proof (used_after_ge u' r Hu') as Hge.
@@ -164,7 +165,7 @@ Proof.
     symmetry. apply N.ltb_lt.
     assert (E: forall evs u0, has_alloc evs = false -> used_after u0 evs = u0).
     { clear. induction evs as [|e r IH]; intros u0 Hh; [reflexivity|].
-      destruct e as [n|[| |n]]; cbn [has_alloc used_after] in *; try discriminate; now apply IH. }
+      destruct e as [n|[| |n|n]]; cbn [has_alloc used_after] in *; try discriminate; now apply IH. }
     rewrite E by exact Eh. exact H.
 Qed.
 
@@ -182,7 +183,7 @@ Proof.
   destruct (feed (memmon L) 0 evs) as [u ok]. cbn [snd] in H.
   assert (E: forall evs u0, has_alloc evs = false -> used_after u0 evs = u0).
   { clear. induction evs as [|e r IH]; intros u0 Hh; [reflexivity|].
-    destruct e as [n|[| |n]]; cbn [has_alloc used_after] in *; try discriminate; now apply IH. }
+    destruct e as [n|[| |n|n]]; cbn [has_alloc used_after] in *; try discriminate; now apply IH. }
   split; [|split].
   - intros HU. assert (Hok: ok = true).
     { rewrite H. apply orb_true_iff. right. now apply N.ltb_lt. }
@@ -204,7 +205,7 @@ Proof.
   assert (G: forall evs u, u <= usize_max -> used_after u evs < usize_max ->
              feed (memmon usize_max) u evs = (used_after u evs, true)).
   { clear. induction evs as [|e r IH]; intros u Hu H; cbn [feed used_after] in *; [reflexivity|].
-    destruct e as [n|[| |n]]; cbn [mstep memmon]; try (now apply IH).
+    destruct e as [n|[| |n|n]]; cbn [mstep memmon]; try (now apply IH).
     set (u' := sat_add usize_max u n) in *. assert (Hu': u' <= usize_max) by (unfold u', sat_add; lia).
     pose proof (used_after_ge u' r Hu').
     destruct (N.leb_spec usize_max u'); [lia|]. cbn [negb]. now apply IH. }
